@@ -230,6 +230,70 @@ func init() {
 				})
 			}
 		}
+		// ---- 2b. inventory of every site that sets a verification-affecting field of a tls.Config:
+		// an assignment `x.<Field> = …` (also op-assignments, also inside closures, select and type
+		// switch bodies) or a keyed element `<Field>: …` of a composite literal whose type is
+		// tls.Config or elided.  AST only: the receiver's type is not resolved, so a same-named field
+		// of another struct type shows up here too (and names itself in the broken obligation).
+		verifFields := map[string]bool{"Time": true, "VerifyPeerCertificate": true, "VerifyConnection": true,
+			"InsecureSkipVerify": true, "ClientAuth": true, "RootCAs": true, "ClientCAs": true, "ServerName": true,
+			"GetConfigForClient": true}
+		type vsite struct{ file, fn, field string }
+		var vsites []vsite
+		for _, rel := range files {
+			f := parse(rel)
+			for _, d := range f.Decls {
+				name := "<package level>"
+				if fn, ok := d.(*ast.FuncDecl); ok {
+					name = c05funcName(fn)
+				}
+				ast.Inspect(d, func(x ast.Node) bool {
+					switch n := x.(type) {
+					case *ast.AssignStmt:
+						for _, l := range n.Lhs {
+							if sel, ok := l.(*ast.SelectorExpr); ok && verifFields[sel.Sel.Name] {
+								vsites = append(vsites, vsite{rel, name, sel.Sel.Name})
+							}
+						}
+					case *ast.CompositeLit:
+						if n.Type != nil {
+							t := c05src(n.Type)
+							if t != "tls.Config" {
+								return true // elements of another struct type; nested literals are still visited
+							}
+						}
+						for _, e := range n.Elts {
+							if kv, ok := e.(*ast.KeyValueExpr); ok {
+								if id, ok := kv.Key.(*ast.Ident); ok && verifFields[id.Name] {
+									vsites = append(vsites, vsite{rel, name, id.Name})
+								}
+							}
+						}
+					}
+					return true
+				})
+			}
+		}
+		sort.Slice(vsites, func(i, j int) bool {
+			a, c := vsites[i], vsites[j]
+			if a.file != c.file {
+				return a.file < c.file
+			}
+			if a.fn != c.fn {
+				return a.fn < c.fn
+			}
+			return a.field < c.field
+		})
+		fmt.Fprintf(b, "/-- every site in non-test code that sets a verification-affecting field of a tls.Config (Time, VerifyPeerCertificate, VerifyConnection, InsecureSkipVerify, ClientAuth, RootCAs, ClientCAs, ServerName, GetConfigForClient) by assignment or in a composite literal: (file, function, field), sorted; a site occurring twice is listed twice -/\ndef tlsVerifFieldSites : List (String × String × String) := [\n")
+		for i, v := range vsites {
+			sep := ","
+			if i == len(vsites)-1 {
+				sep = ""
+			}
+			fmt.Fprintf(b, "  (%s, %s, %s)%s\n", leanStr05(v.file), leanStr05(v.fn), leanStr05(v.field), sep)
+		}
+		fmt.Fprintf(b, "]\n\n")
+
 		fmt.Fprintf(b, "/-- every assignment to a field `InsecureSkipVerify` in non-test code: (file, function, value, enclosing conditions) -/\ndef isvSites : List (String × String × String × String) := [\n")
 		for i, s := range sites {
 			sep := ","
